@@ -1,4 +1,5 @@
 import SkgVerif.Lemmas.SpaceTime
+import SkgVerif.Gen.Tables
 /-!
 # C14 — space-time experimental variogram = estimator over exactly each cell's pairs
 -/
@@ -68,5 +69,13 @@ theorem C14_marginal {β} (est : List Rat → β) (nx nt : ℕ) (hnt : 0 < nt) (
     simp [stMarginalTime, List.getElem?_range hj]
 
 example : groupsOC [1, 2, 3] [0, 1, 3/2, 3, 4] = [-1, 0, 1, 2, -1] := by decide +kernel
+
+
+/-- the per-axis loop in the source (`SpaceTimeVariogram._calc_group`) uses the open-closed
+intervals `groupAuxOC` transcribes -/
+theorem C14_source_loop :
+    Gen.stGroupLoopLower = ">" ∧ Gen.stGroupLoopUpper = "<=" ∧
+    Gen.stGroupLoopIter = "enumerate(zip([0] + list(bins), bins))" ∧
+    Gen.stGroupLoopInit = ["np.ones(len(d), dtype=int) * -1"] := by decide
 
 end Skg
